@@ -908,7 +908,7 @@ def r08_11(prog, rep, rid="R08.11"):
         rep.ok(rid, key, f.loc(), "%d instants (timed and all-day) are armed for their own second" % len(cases))
 
 
-def _walk_fn(prog, g, args, depth=0):
+def _walk_fn(prog, g, args, depth=0, whole=False):
     """Value of g(args) by a value-fixed walk of g: an argument is a number or, for an instant passed by value, a dict of its members;
     constant tables of g's unit are in the store, calls of other functions of the unit are walked the same way.  None when the paths
     do not agree on one result."""
@@ -965,6 +965,9 @@ def _walk_fn(prog, g, args, depth=0):
         if isinstance(x, dict) and x.get("k") == "ret" and x.get("e") is not None:
             e = strip_casts(cfg.resolve(x["e"]))
             if e.get("k") == "init" and e.get("fs"):
+                if whole:       # an aggregate returned by value: all its members, in the order they are written
+                    outs.append(tuple(eval_in(store, x_[1], g, call_eval) for x_ in e["fs"]))
+                    return None
                 e = e["fs"][0][1]
             outs.append(eval_in(store, e, g, call_eval))
         return None
